@@ -1,5 +1,192 @@
-(* C23 -- stub while the model is being tied; replaced below. *)
-From BV Require Import Base.Prelude Gen.Coalg Gen.Paired.
-From BV Require Gen.TiePaired.
-Theorem C23_stub : True. Proof. exact I. Qed.
-Print Assumptions C23_stub.
+(* C23 -- paired-action wrappers always undo what they did.
+
+   Models: Gen/Paired.v (run_wrapper, stage_wrapper, subs_wrapper, suspend_wrapper; device forest), built on the
+   machine C22 proves equal to the transcribed source of finalize_wrapper / contingency_wrapper ([cw_resume]).
+   Every theorem: for EVERY wrapped plan (any coalgebra P, resume : P -> input -> outcome P, any state p of it), every
+   message encoding mk, every classification is_status of responses, and every driver script s that neither closes
+   nor halts the wrapper ([plain s]: no Close, no thrown GeneratorExit / PlanHalt; any length, any mix of send and
+   throw of every other kind -- failures at each message, RequestAbort, RequestStop, KeyboardInterrupt ...).
+   The wrapper is started by Send None (first letter written out).
+
+   *_trace theorems: the whole trace of the wrapper machine IS the reference trace ([stage_ref] ... in Gen/Paired.v):
+       do-prefix (stage / install / subscribe), wrapped plan, undo plan -- in this order, the undo plan started
+       exactly when the body ends by return or by an exception that is not a GeneratorExit kind (also when the
+       do-prefix itself failed midway), its messages computed from the responses the do-prefix received.
+   *_all / *_tokens / one_close theorems: the property itself, read off the reference.
+   Only `exact lemma` proofs here (Proofs/Paired.v, Proofs/PairedThm.v, Proofs/Forest.v). *)
+From Coq Require Import String.
+From BV Require Import Base.Prelude Gen.Coalg Gen.PyGen Gen.Wrappers Gen.Paired.
+From BV Require Import Proofs.Paired Proofs.PairedThm Proofs.Forest.
+From BV Require Gen.Tie Gen.TiePaired.
+
+(* ------------------------------------------------------------------ stage_wrapper *)
+Theorem C23_stage_wrapper_trace :
+  forall (P : Type) (resume : P -> input -> outcome P) (mk : mview -> msg) (is_status : val -> bool)
+         (roots : list dev) (p : P) (s : list input),
+    plain s = true ->
+    trace (stage_wrapper_resume resume mk is_status roots) (stage_wrapper_init mk roots p) (Send VNone :: s)
+    = stage_ref resume mk is_status roots p s.
+Proof. exact @stage_wrapper_trace. Qed.
+Print Assumptions C23_stage_wrapper_trace.
+
+(* however the body (stage_all; plan) ended -- return or any non-GeneratorExit exception, including a failure while
+   staging -- once every unstage message is answered the trace ends with unstage of EVERY root, once each, in
+   reverse order (+ one wait on their group iff some answer was a Status), then the body's own completion *)
+Theorem C23_stage_wrapper_unstages_all :
+  forall (P : Type) (resume : P -> input -> outcome P) (mk : mview -> msg) (is_status : val -> bool)
+         (roots : list dev) (p : P) (s : list input) ms t acc vs rest c,
+    plain s = true ->
+    body_ref resume is_status (stage_do mk roots) p (Send VNone :: s) = (ms, Some (t, acc, map Send vs ++ rest)) ->
+    plain_end t = Some c ->
+    length vs = length roots -> existsb is_status vs = false ->
+    trace (stage_wrapper_resume resume mk is_status roots) (stage_wrapper_init mk roots p) (Send VNone :: s)
+    = map OYield ms ++ map OYield (map (fun d => mk (VUnstage d G_UNSTAGE)) (rev roots)) ++ [compl_obs c].
+Proof. exact @stage_unstages_all. Qed.
+Print Assumptions C23_stage_wrapper_unstages_all.
+
+Theorem C23_stage_wrapper_unstages_all_and_waits :
+  forall (P : Type) (resume : P -> input -> outcome P) (mk : mview -> msg) (is_status : val -> bool)
+         (roots : list dev) (p : P) (s : list input) ms t acc vs v' rest c,
+    plain s = true ->
+    body_ref resume is_status (stage_do mk roots) p (Send VNone :: s) = (ms, Some (t, acc, map Send vs ++ Send v' :: rest)) ->
+    plain_end t = Some c ->
+    length vs = length roots -> existsb is_status vs = true ->
+    trace (stage_wrapper_resume resume mk is_status roots) (stage_wrapper_init mk roots p) (Send VNone :: s)
+    = map OYield ms
+      ++ map OYield (map (fun d => mk (VUnstage d G_UNSTAGE)) (rev roots) ++ [mk (VWait G_UNSTAGE)]) ++ [compl_obs c].
+Proof. exact @stage_unstages_all_wait. Qed.
+Print Assumptions C23_stage_wrapper_unstages_all_and_waits.
+
+(* the devices staged: separate_devices(root_ancestor(d) for d in devices) on any acyclic parent forest is the list
+   of distinct root ancestors in first-occurrence order *)
+Theorem C23_stage_roots :
+  forall (parent : dev -> option dev), (forall d p, parent d = Some p -> p < d) ->
+  forall fuel devices, (forall d, In d devices -> d < S fuel) ->
+    exists rs roots,
+      map_opt (root_ancestor parent (S fuel)) devices = Some rs /\
+      stage_roots parent (S fuel) devices = Some roots /\
+      roots = dedup rs [] /\ NoDup roots /\ Forall (fun r => parent r = None) roots /\
+      (forall r, In r roots <-> exists d, In d devices /\ root_ancestor parent (S fuel) d = Some r).
+Proof. exact stage_roots_spec. Qed.
+Print Assumptions C23_stage_roots.
+
+(* ------------------------------------------------------------------ suspend_wrapper *)
+Theorem C23_suspend_wrapper_trace :
+  forall (P : Type) (resume : P -> input -> outcome P) (mk : mview -> msg) (is_status : val -> bool)
+         (susps : list nat) (p : P) (s : list input),
+    plain s = true ->
+    trace (suspend_wrapper_resume resume mk is_status susps) (suspend_wrapper_init mk susps p) (Send VNone :: s)
+    = suspend_ref resume mk is_status susps p s.
+Proof. exact @suspend_wrapper_trace. Qed.
+Print Assumptions C23_suspend_wrapper_trace.
+
+Theorem C23_suspend_wrapper_removes_all :
+  forall (P : Type) (resume : P -> input -> outcome P) (mk : mview -> msg) (is_status : val -> bool)
+         (susps : list nat) (p : P) (s : list input) ms t acc vs rest c,
+    plain s = true ->
+    body_ref resume is_status (LPStart (install_msgs mk susps) None) p (Send VNone :: s)
+      = (ms, Some (t, acc, map Send vs ++ rest)) ->
+    plain_end t = Some c -> length vs = length susps ->
+    trace (suspend_wrapper_resume resume mk is_status susps) (suspend_wrapper_init mk susps p) (Send VNone :: s)
+    = map OYield ms ++ map OYield (map (fun x => mk (VRemove x)) susps) ++ [compl_obs c].
+Proof. exact @suspend_removes_all. Qed.
+Print Assumptions C23_suspend_wrapper_removes_all.
+
+(* ------------------------------------------------------------------ subs_wrapper *)
+Theorem C23_subs_wrapper_trace :
+  forall (P : Type) (resume : P -> input -> outcome P) (mk : mview -> msg) (is_status : val -> bool)
+         (set_iter : list val -> list val) (subs : list (nat * nat)) (p : P) (s : list input),
+    plain s = true ->
+    trace (subs_resume resume mk is_status set_iter) (subs_wrapper_init mk subs p) (Send VNone :: s)
+    = subs_ref resume mk is_status set_iter subs p s.
+Proof. exact @subs_wrapper_trace. Qed.
+Print Assumptions C23_subs_wrapper_trace.
+
+(* [tokens] = the responses the subscribe messages had received when the body ended (all of them, or -- when a
+   subscribe failed midway -- those received before the failure): exactly these are unsubscribed, in the order
+   in which the set hands them out *)
+Theorem C23_subs_wrapper_unsubscribes_tokens :
+  forall (P : Type) (resume : P -> input -> outcome P) (mk : mview -> msg) (is_status : val -> bool)
+         (set_iter : list val -> list val) (subs : list (nat * nat)) (p : P) (s : list input) ms t tokens vs rest c,
+    plain s = true ->
+    body_ref resume is_status (LPStart (subscribe_msgs mk subs) None) p (Send VNone :: s)
+      = (ms, Some (t, tokens, map Send vs ++ rest)) ->
+    plain_end t = Some c -> length vs = length (set_iter tokens) ->
+    trace (subs_resume resume mk is_status set_iter) (subs_wrapper_init mk subs p) (Send VNone :: s)
+    = map OYield ms ++ map OYield (map (fun tok => mk (VUnsubscribe tok)) (set_iter tokens)) ++ [compl_obs c].
+Proof. exact @subs_unsubscribes_tokens. Qed.
+Print Assumptions C23_subs_wrapper_unsubscribes_tokens.
+
+(* ------------------------------------------------------------------ run_wrapper *)
+Theorem C23_run_wrapper_trace :
+  forall (P : Type) (resume : P -> input -> outcome P) (mk : mview -> msg) (is_status : val -> bool)
+         (p : P) (s : list input),
+    plain s = true ->
+    trace (rw_resume resume mk is_status) (run_wrapper_init p) (Send VNone :: s)
+    = OYield (mk VOpen) :: run_ref resume mk is_status p s.
+Proof. exact @run_wrapper_trace. Qed.
+Print Assumptions C23_run_wrapper_trace.
+
+(* open_run answered with uid; the wrapped plan yields ms and ends with t; the close_run message is answered:
+   exactly one close_run, whose exit_status / reason say how the plan ended; the wrapper returns the uid or re-raises.
+   An exception that is not an Exception subclass (KeyboardInterrupt, CancelledError) or a GeneratorExit kind
+   raised by the plan passes through without a close_run: `except Exception` does not see it. *)
+Theorem C23_run_wrapper_one_close :
+  forall (P : Type) (resume : P -> input -> outcome P) (mk : mview -> msg) (is_status : val -> bool)
+         (p : P) uid rest ms t v' rest2,
+    plain rest = true ->
+    split resume no_store p (Send VNone :: rest) = (ms, Some (t, tt, Send v' :: rest2)) ->
+    trace (rw_resume resume mk is_status) (run_wrapper_init p) (Send VNone :: Send uid :: rest)
+    = OYield (mk VOpen) :: map OYield ms ++
+      match t with
+      | TRet _ => [OYield (mk (VClose None None)); OReturn uid]
+      | TExc e =>
+          if is_GeneratorExit e then [ORaise e]
+          else if is_Exception e then [OYield (mk (close_view e)); ORaise e]
+          else [ORaise e]
+      | TFuel => [OFuel]
+      end.
+Proof. exact @run_wrapper_one_close. Qed.
+Print Assumptions C23_run_wrapper_one_close.
+
+(* the statuses, from the class attributes of the current source (coq/gen/Tables.v, regenerated on every run) *)
+Theorem C23_close_status_table :
+  close_view ERequestAbort = VClose (Some "abort"%string) None /\
+  close_view ERequestStop = VClose (Some "success"%string) None /\
+  forall e, is_control e = false -> close_view e = VClose (Some "fail"%string) (Some e).
+Proof. exact @close_status_table. Qed.
+Print Assumptions C23_close_status_table.
+
+(* ------------------------------------------------------------------ non-vacuity (concrete instances run by vm_compute) *)
+Import Gen.Tie Gen.TiePaired.
+Definition nv_tbl : list mview :=
+  [VCmd 0 0; VCmd 2 1; VStage 0 100; VStage 3 100; VWait 100; VUnstage 3 101; VUnstage 0 101; VWait 101].
+Definition nv_parents : list (dev * dev) := [(1, 0); (2, 1)].       (* 2 -> 1 -> 0 ; 3 alone *)
+Definition nv_plan : stmt := SSeq (SYield None 0) (SSeq (SYield None 1) (SRaise (EUser 1))).
+
+(* devices [2; 3; 1] have the roots [0; 3]; the plan fails after two messages; both roots are unstaged, reversed *)
+Example C23_stage_nonvacuous :
+  stage_roots (parent_t nv_parents) forest_fuel [2; 3; 1] = Some [0; 3] /\
+  let s := [Send VNone; Send VNone; Send VNone; Send VNone; Send VNone; Send VNone] in
+  plain s = true /\
+  body_ref (cl_resume tie_fuel) is_status_t (stage_do (mk_t nv_tbl) [0; 3]) (cl_init nv_plan) (Send VNone :: s)
+    = ([2; 3; 0; 1], Some (TExc (EUser 1), [VNone; VNone], map Send [VNone; VNone] ++ [])) /\
+  trace (stage_wrapper_resume (cl_resume tie_fuel) (mk_t nv_tbl) is_status_t [0; 3])
+        (stage_wrapper_init (mk_t nv_tbl) [0; 3] (cl_init nv_plan)) (Send VNone :: s)
+  = [OYield 2; OYield 3; OYield 0; OYield 1; OYield 5; OYield 6; ORaise (EUser 1)].
+Proof. vm_compute. repeat split; reflexivity. Qed.
+
+Definition nv_rtbl : list mview := [VCmd 0 0; VOpen; VClose (Some "abort"%string) None].
+(* the RunEngine aborts the run at the plan's message: one close_run with exit_status 'abort' *)
+Example C23_run_nonvacuous :
+  let rest := [Throw ERequestAbort; Send VNone] in
+  plain rest = true /\
+  split (cl_resume tie_fuel) no_store (cl_init (SYield None 0)) (Send VNone :: rest)
+    = ([0], Some (TExc ERequestAbort, tt, [Send VNone])) /\
+  trace (rw_resume (cl_resume tie_fuel) (mk_t nv_rtbl) is_status_t) (run_wrapper_init (cl_init (SYield None 0)))
+        (Send VNone :: Send (VInt 7) :: rest)
+  = [OYield 1; OYield 0; OYield 2; ORaise ERequestAbort].
+Proof. vm_compute. repeat split; reflexivity. Qed.
+
+(* Full statement of the property (kept for reference).  Proved above: run_wrapper, stage_wrapper, subs_wrapper,
+   suspend_wrapper.  The lazily_stage / monitor_during / fly_during clauses are stated in their own sections below. *)
